@@ -337,6 +337,24 @@ pub fn c19() -> i32 {
         let sim = Sim::new(img.files.clone());
         let mdev = open_chain(&sim, 0, &g.cfg_small(), false).unwrap();
         let mres = block_on(guest_history(&mdev, hist, vsize));
+        // the same model where hole punching is unsupported (the library's zero-write fallback runs)
+        {
+            let sim = Sim::new(img.files.clone());
+            sim.borrow_mut().fault.punch_unsupported = true;
+            let ndev = open_chain(&sim, 0, &g.cfg_small(), false).unwrap();
+            let nres = block_on(guest_history(&ndev, hist, vsize));
+            guest_runs += 1;
+            evals += 1;
+            if nres != mres {
+                let p = nres.1.iter().zip(mres.1.iter()).position(|(a, b)| a != b);
+                run.add(Violation {
+                    prop: "C19".into(),
+                    class: "model-without-punching:guest-history-differs".into(),
+                    detail: format!("guest history {} [{}] on the host-file model with hole punching unsupported: results {:?} vs {:?}; first differing guest block {:?}", hi, hist_str(hist), nres.0, mres.0, p),
+                    replay: json!({"engine":"enum-c19-guest","backend":"simio-nopunch","history":hist_str(hist)}),
+                });
+            }
+        }
         for name in ["tokio", "sync", "uring"] {
             let path = dir.join(format!("guest-{}-{}.qcow2", name, hi));
             std::fs::write(&path, &img.files[0]).unwrap();
@@ -379,6 +397,51 @@ pub fn c19() -> i32 {
                 Err(e) => run.add(Violation { prop: "C19".into(), class: format!("{}:guest-history-failed", name), detail: format!("history {} on {}: {}", hi, name, e), replay: json!({"engine":"enum-c19-guest","backend":name,"history":hist_str(hist)}) }),
             }
             let _ = std::fs::remove_file(&path);
+        }
+    }
+    // ---- stale free host clusters (released compressed clusters are not punched): partial writes
+    // into fresh guest clusters must read zeros around them, with and without hole punching ----
+    {
+        let g = crate::images::G10;
+        let cimg = crate::images::initial_images(&g, &["compressed"]).remove(0);
+        let (cs, bs) = (g.cs(), g.bs());
+        let w = |off: u64, len: u64, tag: u32| Op::Write { off, len: len as usize, tag };
+        let far = (g.vsize() / cs - 4) * cs;
+        let stale_hists: Vec<Vec<Op>> = vec![
+            vec![w(0, bs, 1), w(cs, bs, 2), w(2 * cs, bs, 3), w(3 * cs, bs, 4), w(far + bs, bs, 5), w(far + cs, bs, 6), w(far + 2 * cs + bs, bs, 7)],
+            vec![w(0, cs, 1), w(cs, cs, 2), w(2 * cs, cs, 3), w(3 * cs, cs, 4), Op::Flush, w(far, bs, 5), w(far + cs + bs, bs, 6), Op::Discard { off: far, len: cs }, w(far + 2 * cs + bs, bs, 7)],
+        ];
+        for (hi, hist) in stale_hists.iter().enumerate() {
+            let mut outs = vec![];
+            for nopunch in [false, true] {
+                let sim = Sim::new(cimg.files.clone());
+                sim.borrow_mut().fault.punch_unsupported = nopunch;
+                let dev = open_chain(&sim, 0, &g.cfg_small(), false).unwrap();
+                outs.push(block_on(guest_history(&dev, hist, g.vsize())));
+                guest_runs += 1;
+                evals += 1;
+            }
+            // reference: flat disk
+            let mut rd = cimg.rd.clone();
+            for op in hist {
+                match op {
+                    Op::Write { off, len, tag } => rd.write(*off, *len, *tag),
+                    Op::Discard { off, len } => rd.discard(*off, *len),
+                    _ => {}
+                }
+            }
+            let want: Vec<Option<u64>> = rd.blocks.iter().map(|b| Some(*b)).collect();
+            for (k, o) in outs.iter().enumerate() {
+                if o.1 != want {
+                    let p = o.1.iter().zip(want.iter()).position(|(a, b)| a != b);
+                    run.add(Violation {
+                        prop: "C19".into(),
+                        class: format!("model{}:guest-content-differs-from-flat-disk", if k == 1 { "-without-punching" } else { "" }),
+                        detail: format!("history {} [{}] on a compressed image (host-file model{}): first differing guest block {:?}", hi, hist_str(hist), if k == 1 { ", hole punching unsupported" } else { "" }, p),
+                        replay: json!({"engine":"enum-c19-guest","backend":"simio","history":hist_str(hist)}),
+                    });
+                }
+            }
         }
     }
     let _ = std::fs::remove_dir_all(&dir);
